@@ -80,7 +80,7 @@ def _decode_tlc_string_tuple(line, tag):
 
 
 def run_tlc(ctx, module, cfg, *, workers=8, simulate=None, depth=None, env=None, timeout=1800,
-            continue_=False, coverage=False, heap="12g", want_replay=True, extra=None, deque=False):
+            continue_=False, coverage=False, heap="12g", want_replay=True, extra=None, deque=False, max_replay=None):
     """Runs TLC on spec/<module>.tla with spec/<cfg>; returns TlcResult. Scratch in ctx.work."""
     wd = os.path.join(ctx.work, f"tlc-{module}-{len(ctx.tlc_runs)}")
     os.makedirs(wd, exist_ok=True)
@@ -118,9 +118,20 @@ def run_tlc(ctx, module, cfg, *, workers=8, simulate=None, depth=None, env=None,
     r.wall = time.time() - t0
     r.out_path = out_path
     sim_states = 0
+    stride = 1
+    r.replay_total = 0
+    if max_replay:
+        with open(out_path, errors="replace") as f:
+            r.replay_total = sum(1 for line in f if line.startswith('<<"REPLAY", '))
+        stride = max(1, -(-r.replay_total // max_replay))
+    import hashlib
     with open(out_path, errors="replace") as f:
         for line in f:
             if line.startswith('<<"REPLAY", '):
+                if not max_replay:
+                    r.replay_total += 1
+                if stride > 1 and int(hashlib.md5(line.encode()).hexdigest()[:8], 16) % stride != 0:
+                    continue
                 if want_replay:
                     try:
                         r.replay.append(_decode_tlc_string_tuple(line, "REPLAY"))
